@@ -27,7 +27,6 @@ CLAIMED = {
 NOT_APPLICABLE = {
  "C19": "Write/read graph isomorphism quantifies over document contents. The structural parts of writing (offset bookkeeping, free list, section order, lengths) are decided under C18; what is left is equality of object graphs, which no shape of the writer shows.",
  "C21": "'Every output validates' quantifies over operation parameters and document contents; validator acceptance is runtime behaviour. There is no write-side gate to check (operations do not re-validate before writing).",
- "C32": "Page operations vs a reference model over operation histories: content-level. The page-number range clause of selections is decided under C31; rotation/box/insert arithmetic on page dictionaries is value-level.",
  "C33": "Page-sequence preservation of split/merge: content-level arithmetic on page lists. The span arithmetic of pkg/api/split.go was read in round 3 (from = i*span+1, thru = min((i+1)*span, pageCount), final partial span) and is correct; nothing beyond arithmetic remains to check structurally.",
  "C34": "Booklet/n-up placement is combinatorial arithmetic over page counts and configurations (permutations of page numbers); no table or sibling pair whose agreement is a necessary condition was found.",
  "C37": "Form export/fill round trip over field values (per field type value formatting and appearance generation): value-level.",
